@@ -7,12 +7,15 @@ from harness import model, vloop
 from harness.common import Prop
 
 KINDS = ["on_change", "debounce", "throttle", "delta", "aggregate"]
+SCALE = 2 ** 60          # numbers travel as integers on the 2^-60 grid (see Model/Filters.v)
+U64 = 2 ** 54            # 1/64 on that grid
+TOL = 115292150460684704  # the double 0.1 on that grid
 CLOCK = [0.0]
 
 
 def to_py(v):
     if v[0] == 0:
-        return v[1] / 64.0
+        return v[1] / SCALE          # exact: at most 53 significant bits
     if v[0] == 1:
         return "s%d" % v[1]
     if v[0] == 2:
@@ -33,7 +36,7 @@ def from_py(x):
     if isinstance(x, bool):
         return ["bool", x]
     if isinstance(x, (int, float)):
-        z = x * 64
+        z = x * SCALE
         return [0, int(z)] if z == int(z) else ["inexact", repr(x)]
     if isinstance(x, str):
         return [1, int(x[1:])] if x.startswith("s") else ["str", x]
@@ -111,7 +114,7 @@ async def _run(kinds, t0, calls, how=None):
         base = getattr(f, "_value", None)
         base = [] if base is None or (isinstance(base, str) and base == "undefined") else [from_py(base)]
         s = getattr(f, "_sum", 0.0)
-        return [outs, base, int(s * 64) if s * 64 == int(s * 64) else ["inexact", repr(s)]]
+        return [outs, base, int(s * SCALE) if s * SCALE == int(s * SCALE) else ["inexact", repr(s)]]
     finally:
         F.time.monotonic = old
 
@@ -120,7 +123,7 @@ class C20(Prop):
     id = "C20"
     prop_file = "Props/C20.v"
     rule = ("sequences of 0-25 calls with non-decreasing integer call times: numbers as exact multiples of 1/64 with repeats, sub-tolerance "
-            "drifts (steps of 1..6/64 versus 7/64), sign changes; strings; lists; parameter objects (value/min/max changes, pending flag), both a "
+            "drifts (steps of 1..6/64 versus 7/64), sign changes, differences of exactly one tolerance (the double 0.1) and one grid step off it; strings; lists; parameter objects (value/min/max changes, pending flag), both a "
             "fresh object per call and one live object changed by controller reports and by local set() + confirmation; "
             "every filter (on_change, debounce n=0..4, throttle, delta, aggregate) and every ordered pair of filters as a chain; time.monotonic "
             "patched to the history's clock.  Non-trivial = at least one value delivered and one suppressed; distinct by case content.")
@@ -142,7 +145,11 @@ class C20(Prop):
                     cur += rng.randrange(-3000, 3000)
                 elif mv == "sign":
                     cur = -cur
-                vals.append([0, cur])
+                vals.append([0, cur * U64])
+        elif vt == "edge":
+            # differences of exactly one tolerance (the double 0.1), just above and just below it, sign changes across zero
+            pool = [0, TOL // 2, -(TOL // 2), TOL, -TOL, 2 * TOL, -2 * TOL, 4 * TOL, TOL + 32, TOL - 32, 2 * TOL + 64, 3 * U64, 32 * U64]
+            vals = [[0, rng.choice(pool)] for _ in range(n)]
         elif vt == "str":
             vals = [[1, rng.randrange(3)] for _ in range(n)]
         elif vt == "list":
@@ -171,7 +178,7 @@ class C20(Prop):
             return [k, rng.randrange(0, 5)] if k == 1 else [k, rng.choice([1, 5, 10])] if k in (2, 4) else [k]
 
         for _ in range(n):
-            for vt in ("num", "num", "str", "list", "param", "live"):
+            for vt in ("num", "num", "str", "list", "param", "live", "edge"):
                 numeric = vt == "num"
                 kinds = [rk(numeric)]
                 if rng.random() < 0.4:
